@@ -876,6 +876,15 @@ class QasmProcessor:
         else:
             gate_name = "{}".format(command[0])
 
+        if command[0] not in self.predefined_gates:
+            gate = self.qasm_gates[command[0]]
+            _check_arity(
+                command[0],
+                len(args),
+                len(reg_set[0]),
+                (len(gate.gate_args), len(gate.gate_regs)),
+            )
+
         # creates custom-gate (if required) using gate defn and provided args
         if (
             command[0] not in self.predefined_gates
